@@ -206,3 +206,22 @@ def _monthrange(L, year, month):
         else:
             days = z3.If(_leap(year), 29, 28)
     return (L.ctx.fresh_int('weekday'), days)
+
+
+@model('datetime.datetime.strptime')
+def _strptime(L, x, fmt):
+    """strptime of a field of an abstract csv row (string layer, ASSUMED): the field denotes the instant
+    CSV_INSTANT_US(row, col); with %z in the format the result is offset-aware, else naive.  Fields that do not
+    match the format are outside the contracts that use this (precondition: well-formed records)."""
+    from .models_io import CSV_INSTANT_US
+    if isinstance(x, Opaque) and x.name == 'csvfield' and isinstance(fmt, str):
+        return mk_dt(CSV_INSTANT_US(x.row, x.col), 'OFFSET' if '%z' in fmt else None)
+    raise Unsupported('strptime of %r' % type(x))
+
+
+@method('datetime', 'timestamp')
+def _dt_timestamp(L, d):
+    """seconds since the epoch of an aware datetime (model R: the exact quotient)"""
+    if d.tz is None:
+        raise Unsupported('timestamp() of a naive datetime (local time)')
+    return to_real(d.us) / rv(1000000.0)
